@@ -96,6 +96,15 @@ Theorem C08_eval_refuted_drop_table_types : ~ C08_holds w_droptype (model_C08 w_
 Proof. intros [_ [H _]]. vm_compute in H. discriminate. Qed.
 Print Assumptions C08_eval_refuted_drop_table_types.
 
+(* drop_index of an index without any table-bound column (a bare column() expression) under a convention with a
+   constraint_name token: invoked directly, the index keeps its plain name; the rendered op.drop_index('ix1', ...) knows
+   no expressions, DropIndexOp.to_index substitutes a dummy table column and the convention renames the index *)
+Definition w_ixname : c08_in :=
+  (mkCfg (lit "op") (lit "sa") false true, [TOp (id0 "t") None (ODropIndex (Plain (id0 "ix1")) None false)]).
+Theorem C08_eval_refuted_unbound_index_name : ~ C08_holds w_ixname (model_C08 w_ixname).
+Proof. intros [_ [H _]]. vm_compute in H. discriminate. Qed.
+Print Assumptions C08_eval_refuted_unbound_index_name.
+
 (* ---------------------------------------------------------------- non-vacuity *)
 Definition ex_table : table :=
   mkTable (id0 "it's") (Some (id0 "My Schema"))
